@@ -1,5 +1,8 @@
 ------------------------------- MODULE MC_Body -------------------------------
 EXTENDS BodyMachine, BodyCases, Json
 CasesA9 == Prod({A9}, {F12})
+CasesDocs == Prod(DocsWell \cup DocsMessy, {F20})
+SpecDocs == Init /\ [][FALSE]_vars
+EmitDoc == PrintT(<<"REPLAY", ToJson([doc |-> cs.doc])>>)
 Emit == done => PrintT(<<"REPLAY", ToJson([doc |-> cs.doc, fs |-> cs.fs, sched |-> sched])>>)
 =============================================================================
